@@ -26,22 +26,25 @@ ASSUMPTIONS = [
 ]
 
 INIT = [
+    "##gff-version 3",
+    "##note kept across updates",
     "c1\ts\tgene\t1\t100\t.\t+\t.\tID=g1",
     "c1\ts\tmRNA\t1\t100\t.\t+\t.\tID=m1;Parent=g1",
     "c1\ts\texon\t1\t50\t.\t+\t.\tID=e1;Parent=m1",
     "c1\ts\tpart\t1\t10\t.\t+\t.\tID=p1;Parent=e1",
     "c1\ts\texon\t60\t70\t.\t+\t.\tParent=m1",
 ]
-INIT_B = INIT[:4]      # every feature has an explicit ID: the database starts without any id counter
+INIT_B = INIT[:6]      # every feature has an explicit ID: the database starts without any id counter
+INIT_D = INIT_B + ["c1\ts\texon\t2\t200000\t.\t+\t.\tID=e1;Parent=g1;note=y"]       # imported with 'merge': e1 and e1_1 exist from the start
 INIT_GTF = [
     'c1\ts\texon\t1\t50\t.\t+\t.\tgene_id "G1"; transcript_id "T1";',
     'c1\ts\texon\t60\t90\t.\t+\t.\tgene_id "G1"; transcript_id "T1";',
     'c1\ts\tCDS\t5\t40\t.\t+\t0\tgene_id "G1"; transcript_id "T1";',
 ]
-INITS = {"I:chain+idless": INIT, "I:chain": INIT_B, "I:gtf": INIT_GTF}
+INITS = {"I:chain+idless": INIT, "I:chain": INIT_B, "I:dups": INIT_D, "I:gtf": INIT_GTF}
 GTF_KW = dict(disable_infer_genes=True, disable_infer_transcripts=True)
 BUNDLES = {
-    "B1": ["c1\ts\tgene\t200\t300\t.\t-\t.\tID=g2", "c1\ts\tmRNA\t200\t300\t.\t-\t.\tID=m2;Parent=g2"],
+    "B1": ["c2\ts\tgene\t200\t300\t.\t-\t.\tID=g2", "c2\ts\tncRNA\t200\t300\t.\t-\t.\tID=m2;Parent=g2"],     # new seqid, new featuretype
     "B2": ["c1\ts\texon\t20\t30\t.\t+\t.\tID=e9;Parent=m9", "c1\ts\tmRNA\t1\t90\t.\t+\t.\tID=m9;Parent=g1"],
     "B3": ["c1\ts\texon\t1\t50\t.\t+\t.\tID=e1;Parent=m1;note=x"],
     "B4": ["c1\ts\texon\t2\t200000\t.\t+\t.\tID=e1;Parent=g1;note=y"],        # other columns, other bin, other parent
@@ -62,7 +65,8 @@ UPDATES = [("B1", "merge"), ("B1", "create_unique"), ("B2", "merge"),
 GTF_UPDATES = [("G1", "merge"), ("G2", "merge"), ("G3", "merge"), ("G3", "create_unique"), ("G3", "replace"), ("G3", "warning"),
                ("G4", "merge"), ("G4", "replace"), ("G5", "merge")]
 GTF_EVENTS = ["U:%s:%s" % u for u in GTF_UPDATES] + ["D:str:exon_1", "D:feat:T1", "D:list:CDS_1,exon_2"]
-GFF_EVENTS = ["U:%s:%s" % u for u in UPDATES] + ["D:str:e1", "D:feat:m1", "D:list:p1,exon_1", "D:str:g1", "A:plain", "A:rewrite"]
+GFF_EVENTS = ["U:%s:%s" % u for u in UPDATES] + ["D:str:e1", "D:feat:m1", "D:list:p1,exon_1", "D:str:g1", "D:gen:e1,p1", "D:children:m1",
+                                                  "A:plain", "A:rewrite", "A:unknown"]
 EVENTS = list(INITS) + GFF_EVENTS + GTF_EVENTS + ["R", "P"]          # R = reopen, P = set_pragmas (changes nothing in the content)
 
 
@@ -107,6 +111,8 @@ def enabled(ev, model):
         return False            # only as the very first event (handled in run_history)
     if ev.startswith("D:feat:"):
         return ev.split(":")[2] in model.feats
+    if ev.startswith("D:children:"):
+        return ev.split(":")[2] in model.feats
     if ev == "A:plain":
         return "g1" in model.feats and "p1" in model.feats and ("g1", "p1", 3) not in model.rels
     if ev == "A:rewrite":
@@ -130,12 +136,22 @@ def apply_real(ev, db, path, wdir):
             db.delete(kind[2], make_backup=True)
         elif kind[1] == "feat":
             db.delete(db[kind[2]], make_backup=True)
+        elif kind[1] == "gen":
+            db.delete((x for x in kind[2].split(",")), make_backup=True)            # a one-shot generator of ids
+        elif kind[1] == "children":
+            db.delete(db.children(kind[2], level=1), make_backup=True)             # a generator of Feature objects
         else:
             db.delete(kind[2].split(","), make_backup=True)
     elif ev == "A:plain":
         db.add_relation("g1", "p1", 3)
     elif ev == "A:rewrite":
         db.add_relation("e1", "exon_1", 1, child_func=_set_parent)
+    elif ev == "A:unknown":
+        for args in (("no-such-parent", "g1", 1), ("g1", "no-such-child", 2)):
+            try:
+                db.add_relation(*args)
+            except gffutils.FeatureNotFoundError:
+                pass          # refused: nothing may change
     elif ev == "R":
         dbutil.close_db(db)
         db = gffutils.FeatureDB(path)
@@ -149,6 +165,8 @@ def apply_model(ev, model):
     if kind[0] == "U":
         lines = [l for l in BUNDLES[kind[1]] if not l.startswith("#")]
         model.update(lines, kind[2])
+    elif kind[0] == "D" and kind[1] == "children":
+        model.delete(sorted(c for (p, c, lv) in model.rels if p == kind[2] and lv == 1))
     elif kind[0] == "D":
         model.delete(kind[2].split(","))
     elif ev == "A:plain":
@@ -202,9 +220,13 @@ def run_history(h, wdir, tag="bfs"):
     init, h_full, h = INITS[h[0]], h, h[1:]
     path = os.path.join(wdir, "h.db")
     src = dbutil.write_text(wdir, "init.gff", "\n".join(init) + "\n")
-    db = gffutils.create_db(src, path, verbose=False, **(GTF_KW if gtf else {}))
+    ckw = dict(GTF_KW) if gtf else {}
+    if h_full[0] == "I:dups":
+        ckw["merge_strategy"] = "merge"
+    db = gffutils.create_db(src, path, verbose=False, **ckw)
     model = RefDB("gtf" if gtf else "gff3")
-    model.update(init)
+    model.update([l for l in init if not l.startswith("#")], "merge" if h_full[0] == "I:dups" else "error")
+    directives0 = [l[2:] for l in init if l.startswith("##")]
     dialect0 = json.dumps(db.dialect, sort_keys=True)
     globals0 = _globals_fingerprint()
     fault = tag if isinstance(tag, tuple) and tag[0] == "fault" else None
@@ -219,6 +241,11 @@ def run_history(h, wdir, tag="bfs"):
         db.count_features_of_type()
         for fid in list(model.feats)[:4]:
             db[fid]
+        for fid in list(model.feats)[:2]:
+            list(db.children(fid, featuretype="exon"))
+            list(db.parents(fid, featuretype=("gene", "mRNA")))
+        list(db.region(seqid="c1", start=1, end=60))
+        list(db.featuretypes()), list(db.seqids())
 
     try:
         for i, ev in enumerate(h):
@@ -278,7 +305,22 @@ def run_history(h, wdir, tag="bfs"):
         if json.dumps(db.dialect, sort_keys=True) != dialect0 or json.dumps(re.dialect, sort_keys=True) != dialect0:
             viol.append(dict(kind="database-dialect-changed-by-history", sig=sig,
                              detail=dict(history=list(h), original=dialect0, live=db.dialect, reopened=re.dialect)))
+        if list(re.directives) != directives0:
+            viol.append(dict(kind="directives-changed-by-history", sig=sig, detail=dict(history=list(h), original=directives0, reopened=list(re.directives))))
         dbutil.close_db(re)
+        # filtered relation queries and region queries through the live object
+        ftypes = sorted({f["cols"]["featuretype"] for f in model.feats.values()})
+        for fid in list(model.feats):
+            for t in ftypes:
+                want = sorted({c for (p, c, lv) in model.rels if p == fid and c in model.feats and model.feats[c]["cols"]["featuretype"] == t} - set([fid]))
+                got_c = sorted(f.id for f in db.children(fid, featuretype=t))
+                if got_c != want and not (exp.get("soft")):
+                    viol.append(dict(kind="live-filtered-children-differ", sig=sig, detail=dict(history=list(h), id=fid, featuretype=t, got=got_c, expected=want)))
+        for sq in sorted({f["cols"]["seqid"] for f in model.feats.values()}):
+            want = sorted(i for i, f in model.feats.items() if f["cols"]["seqid"] == sq)
+            got_r = sorted(f.id for f in db.region(seqid=sq))
+            if got_r != want:
+                viol.append(dict(kind="live-region-differs", sig=sig, detail=dict(history=list(h), seqid=sq, got=got_r, expected=want)))
         # every stored row carries the bin of its current coordinates
         from gv.model import bins_ref
         for row in c["features"]:
